@@ -115,8 +115,27 @@ def needs_ekf(scn):
     return any(s["act"] != "ModelEval" for s in scn["steps"])
 
 
+def resolve_presentation(pres, d):
+    """named presentations -> concrete (container callable, order dict)"""
+    pres = dict(pres or {})
+    c = pres.get("container", set)
+    if isinstance(c, str):
+        if c == "list-reversed":
+            rev = lambda xs: list(reversed(sorted(xs)))
+            order = {"state": rev(d.state), "control": rev(d.control), "calib": rev(d.calib), "update": rev(d.state),
+                     "calmap": rev(d.calib), "pnoise": rev(d.control), "sensors": rev(d.sensors), "snoise": rev(d.snoise)}
+            for k in d.sensors:
+                order["readings:" + k] = rev(d.sensors[k])
+                order["snoise:" + k] = rev(d.snoise[k])
+            pres["order"] = order
+            pres["container"] = list
+        else:
+            pres["container"] = {"set": set, "list": list, "tuple": tuple, "frozenset": frozenset}[c]
+    return pres
+
+
 def build_py(d, ui, python, cse, want_ekf, presentation=None):
-    pres = presentation or {}
+    pres = resolve_presentation(presentation, d)
     model, symtab = make_ui_model(d, ui, container=pres.get("container", set), order=pres.get("order"),
                                   as_string=pres.get("as_string", False))
     cfg = {"common_subexpression_elimination": bool(cse), "innovation_filtering": d.gate()}
@@ -143,6 +162,28 @@ def replay(scn, ui, python, cse=True, presentation=None, force_ekf=False):
         return res
     calenv = {c: fl(d.calmap[c]) for c in d.calib}
     est = None
+    lay = scn.get("layout")
+    if lay:
+        # the layouts the objects publish must be the specification's name order (SortNames)
+        m = impl._state_model if want_ekf else impl
+        pub = {"state": [str(x) for x in m.arglist_state], "control": [str(x) for x in m.arglist_control],
+               "calib": [str(x) for x in m.arglist_calibration]}
+        pub2 = {"State": [str(x) for x in m.State._arglist], "Control": [str(x) for x in m.Control._arglist]}
+        for role in ("state", "control", "calib"):
+            if pub[role] != list(lay[role]):
+                res.mismatches.append(Mismatch(step=-1, what="layout", name=role, expected=list(lay[role]), observed=pub[role]))
+        if pub2["State"] != list(lay["state"]) or pub2["Control"] != list(lay["control"]):
+            res.mismatches.append(Mismatch(step=-1, what="layout", name="State/Control classes", expected=[lay["state"], lay["control"]], observed=pub2))
+        if want_ekf:
+            if [str(x) for x in impl.arglist_state] != list(lay["state"]) or [str(x) for x in impl.arglist_control] != list(lay["control"]):
+                res.mismatches.append(Mismatch(step=-1, what="layout", name="ekf", expected=lay["state"], observed=[str(x) for x in impl.arglist_state]))
+            for key, rs in named(lay["readings"]).items():
+                got = [str(r) for r in impl.sensor_models[key].readings]
+                if got != list(rs):
+                    res.mismatches.append(Mismatch(step=-1, what="layout", name="readings:" + key, expected=list(rs), observed=got))
+                sm = impl.sensor_models[key]
+                if [str(x) for x in sm.arglist_state] != list(lay["state"]):
+                    res.mismatches.append(Mismatch(step=-1, what="layout", name="sensor-model-state:" + key, expected=lay["state"], observed=[str(x) for x in sm.arglist_state]))
     for i, st in enumerate(scn["steps"]):
         act = st["act"]
         res.steps += 1
